@@ -13,6 +13,7 @@ import Ndt.Model.Points
 import Ndt.Model.Jacobian
 import Ndt.Model.Hessian
 import Ndt.Model.History
+import Ndt.Model.Limit
 import Ndt.Gen.BicomplexRing
 /-! The line-protocol driver: one operation per input line, one output line per input line. -/
 namespace Ndt.Driver
@@ -169,8 +170,20 @@ def runHistory (ratio1 ratioN : Rat) (toks : List String) : String :=
         go w' rest (s!"{";".intercalate sorted}|{st}" :: acc)
   " ".intercalate (go ⟨[], [], []⟩ toks [])
 
+def optStr (o : Option Rat) : String := match o with | some v => ratStr v | none => "nan"
+def optOf (s : String) : Option Rat := if s == "nan" then none else some (rq s)
+
 def handle (w : List String) : String :=
   match w with
+  -- limext ρ order seq… : the Richardson stage of Limit._lim (exact); limextc for complex ratios / sequences
+  | "limext" :: rho :: order :: seq => joinSp ((limitExtrapolate (rq rho) order.toNat! (rats seq)).map ratStr)
+  | "limextc" :: rre :: rim :: order :: seq =>
+    joinSp ((limitExtrapolate (⟨rq rre, rq rim⟩ : Cx Rat) order.toNat! (cxs seq)).map cxStr)
+  -- calllim | f(z) entries (nan for NaN) | limits… : Limit._call_lim
+  | "calllim" :: rest =>
+    match splitBar rest with
+    | [_, fz, lims] => joinSp ((callLim (fz.map optOf) (rats lims)).map optStr)
+    | _ => "bad-op"
   -- history ratio1 ratioN ops… : the trace of cache keys and generator states
   | "history" :: r1 :: rn :: toks => runHistory (rq r1) (rq rn) toks
   -- jacravel n m [k]: the layout of one stacked row, with the symbolic entries 10000 j + 100 i + l
